@@ -241,6 +241,21 @@ def rule_z(F):
     return res
 
 
+def rule_f(F):
+    """the growth test is not off by one: see cao/capacity.py free_slot_after_insert"""
+    from cao import capacity
+    res = []
+    for f, ln, status, msg in capacity.free_slot_after_insert(F, "collections::handle_table::HandleTable", True):
+        key = "C13/F/%s/free-slot-after-insert" % f.name
+        mk = {"ok": ok, "bad": bad, "undecided": undecided}[status]
+        if any(r["key"] == key for r in res):
+            key += "#%d" % sum(1 for r in res if r["key"].startswith(key))
+        res.append(mk("C13.F", key, f.loc(ln), msg))
+    if not res:
+        raise AnchorMissing("growth tests in the insertion functions")
+    return res
+
+
 def rule_k(F):
     """every resize leaves a free slot: for each call of adjust_capacity, in all small states (count < capacity) in which the
     guards around the call hold, the installed capacity exceeds the item count (cao/capacity.py, exhaustive evaluation)."""
@@ -256,6 +271,7 @@ def rule_k(F):
 
 
 RULES = [
+    Rule("C13.F", rule_f, 2, "when the growth test declines a free slot remains after the insertion"),
     Rule("C13.K", rule_k, 2, "every resize leaves a free slot"),
     Rule("C13.C", rule_c, 3, "slot/count pairing in HandleTable"),
     Rule("C13.G", rule_g, 2, "load-factor guard on every insertion path"),
